@@ -301,7 +301,11 @@ func (o *Store) visitNodes(t *Collection, n *nodeLoc, target []byte,
 		return true, nil
 	}
 	if saveMem {
-		defer nNode.Evict()
+		defer func(n *node) {
+			if i := n.Evict(); i != nil {
+				o.ItemDecRef(t, i) // The node gave up its reference on the item.
+			}
+		}(nNode)
 	}
 	nItemLoc := &nNode.item
 	nItem, err := nItemLoc.read(t, false)
